@@ -61,26 +61,42 @@ SameUpToOrder(a, b) == Len(a) = Len(b) /\ \A x \in {a[i] : i \in 1..Len(a)} :
 SetDir(s, i, d) == [s EXCEPT !.dirs = [s.dirs EXCEPT ![i] = d]]
 Idx(s) == 1..Len(s.dirs)
 
-ActCase(s)  == {SetDir(s, i, [s.dirs[i] EXCEPT !.case = c]) : i \in {j \in Idx(s) : j > s.caseskip}, c \in {1, 2, 3}}
-ActOws(s)   == {SetDir(s, i, [s.dirs[i] EXCEPT !.pre = w]) : i \in {j \in Idx(s) : j > 1}, w \in {SP, TAB, SP \o SP}}
-          \cup {SetDir(s, i, [s.dirs[i] EXCEPT !.post = w]) : i \in {j \in Idx(s) : j < Len(s.dirs)}, w \in {SP, TAB}}
-          \cup {[s EXCEPT !.gap = <<>>]}                                      \* no space after the separator at all
-ActEdge(s)  == {SetDir(s, 1, [s.dirs[1] EXCEPT !.pre = SP]), [s EXCEPT !.tail = SP]}     \* leading / trailing whitespace of the whole value
-ActEqWs(s)  == {SetDir(s, i, [s.dirs[i] EXCEPT !.eqpre = SP]) : i \in {j \in Idx(s) : s.dirs[j].hasval /\ j > s.caseskip}}
-          \cup {SetDir(s, i, [s.dirs[i] EXCEPT !.eqpost = SP]) : i \in {j \in Idx(s) : s.dirs[j].hasval /\ j > s.caseskip}}
-ActEmpty(s) == {[s EXCEPT !.dbl = k] : k \in 1..(Len(s.dirs) - 1)} \cup {[s EXCEPT !.trail = TRUE]}
-ActTrail(s) == {[s EXCEPT !.trail = TRUE]}
+L(lab, S) == {[lab |-> lab, s |-> t] : t \in S}
+After(s) == {j \in Idx(s) : j > s.caseskip}
+ActCase(s)  == L("name-case:upper", {SetDir(s, i, [s.dirs[i] EXCEPT !.case = 1]) : i \in After(s)})
+          \cup L("name-case:lower", {SetDir(s, i, [s.dirs[i] EXCEPT !.case = 2]) : i \in After(s)})
+          \cup L("name-case:first-letter", {SetDir(s, i, [s.dirs[i] EXCEPT !.case = 3]) : i \in After(s)})
+Inner(s) == {j \in Idx(s) : j > 1}
+NotLast(s) == {j \in Idx(s) : j < Len(s.dirs)}
+ActOws(s)   == L("ows:before-sp", {SetDir(s, i, [s.dirs[i] EXCEPT !.pre = SP]) : i \in Inner(s)})
+          \cup L("ows:before-tab", {SetDir(s, i, [s.dirs[i] EXCEPT !.pre = TAB]) : i \in Inner(s)})
+          \cup L("ows:before-2sp", {SetDir(s, i, [s.dirs[i] EXCEPT !.pre = SP \o SP]) : i \in Inner(s)})
+          \cup L("ows:after-sp", {SetDir(s, i, [s.dirs[i] EXCEPT !.post = SP]) : i \in NotLast(s)})
+          \cup L("ows:after-tab", {SetDir(s, i, [s.dirs[i] EXCEPT !.post = TAB]) : i \in NotLast(s)})
+          \cup L("ows:after-2sp", {SetDir(s, i, [s.dirs[i] EXCEPT !.post = SP \o SP]) : i \in NotLast(s)})
+          \cup L("ows:after-tab-sp", {SetDir(s, i, [s.dirs[i] EXCEPT !.post = TAB \o SP]) : i \in NotLast(s)})
+          \cup L("ows:no-gap", {[s EXCEPT !.gap = <<>>]})
+ActEdge(s)  == L("edge-ws:leading", {SetDir(s, 1, [s.dirs[1] EXCEPT !.pre = SP])}) \cup L("edge-ws:trailing", {[s EXCEPT !.tail = SP]})
+              \cup L("edge-ws:trailing-2sp", {[s EXCEPT !.tail = SP \o SP]})
+WithVal(s) == {j \in Idx(s) : s.dirs[j].hasval /\ j > s.caseskip}
+ActEqWs(s)  == L("eq-ws:before", {SetDir(s, i, [s.dirs[i] EXCEPT !.eqpre = SP]) : i \in WithVal(s)})
+          \cup L("eq-ws:after", {SetDir(s, i, [s.dirs[i] EXCEPT !.eqpost = SP]) : i \in WithVal(s)})
+ActEmpty(s) == L("empty:doubled-separator", {[s EXCEPT !.dbl = k] : k \in 1..(Len(s.dirs) - 1)}) \cup L("empty:trailing-separator", {[s EXCEPT !.trail = TRUE]})
+ActTrail(s) == L("trail:trailing-separator", {[s EXCEPT !.trail = TRUE]})
 SwapAt(ds, i, j) == [k \in 1..Len(ds) |-> IF k = i THEN ds[j] ELSE IF k = j THEN ds[i] ELSE ds[k]]
-ActOrder(s) == {[s EXCEPT !.dirs = SwapAt(s.dirs, i, j)] : i \in {k \in Idx(s) : k >= s.fixed + 1}, j \in {k \in Idx(s) : k >= s.fixed + 1}} \ {s}
-ActQuote(s) == {SetDir(s, i, [s.dirs[i] EXCEPT !.quote = ~s.dirs[i].quote]) : i \in {j \in Idx(s) : s.dirs[j].hasval /\ s.dirs[j].quotable}}
+Movable(s) == {k \in Idx(s) : k >= s.fixed + 1}
+ActOrder(s) == L("order", {[s EXCEPT !.dirs = SwapAt(s.dirs, i, j)] : i \in Movable(s), j \in Movable(s)} \ {s})
+ActQuote(s) == L("quote", {SetDir(s, i, [s.dirs[i] EXCEPT !.quote = ~s.dirs[i].quote]) : i \in {j \in Idx(s) : s.dirs[j].hasval /\ s.dirs[j].quotable}})
 Unknown1 == [name |-> <<120, 45, 118, 101, 114, 105, 102>>, hasval |-> FALSE, val |-> <<>>, case |-> 0, pre |-> <<>>, post |-> <<>>,
              eqpre |-> <<>>, eqpost |-> <<>>, quote |-> FALSE, quotable |-> FALSE, unknown |-> TRUE, eq |-> 61]     \* "x-verif"
 Unknown2 == [Unknown1 EXCEPT !.hasval = TRUE, !.val = <<49>>]                                                        \* "x-verif=1"
-ActUnknown(s) == {[s EXCEPT !.dirs = Append(s.dirs, [u EXCEPT !.eq = s.dirs[1].eq])] : u \in (IF s.bareunknown THEN {Unknown1, Unknown2} ELSE {Unknown2})}
-
+ActUnknown(s) == (IF s.bareunknown THEN L("unknown:flag", {[s EXCEPT !.dirs = Append(s.dirs, [Unknown1 EXCEPT !.eq = s.dirs[1].eq])]}) ELSE {})
+            \cup L("unknown:valued", {[s EXCEPT !.dirs = Append(s.dirs, [Unknown2 EXCEPT !.eq = s.dirs[1].eq])]})
 \* header block: optional whitespace before and after the field value (RFC 9110 5.5: field-line = field-name ":" OWS field-value OWS)
-ActValWs(s) == {SetDir(s, i, [s.dirs[i] EXCEPT !.eqpost = w]) : i \in Idx(s), w \in {<<>>, SP \o SP, TAB}}
-          \cup {SetDir(s, i, [s.dirs[i] EXCEPT !.post = SP]) : i \in Idx(s)}
+ActValWs(s) == L("val-ws:no-space-after-colon", {SetDir(s, i, [s.dirs[i] EXCEPT !.eqpost = <<>>]) : i \in Idx(s)})
+          \cup L("val-ws:two-spaces-after-colon", {SetDir(s, i, [s.dirs[i] EXCEPT !.eqpost = SP \o SP]) : i \in Idx(s)})
+          \cup L("val-ws:tab-after-colon", {SetDir(s, i, [s.dirs[i] EXCEPT !.eqpost = TAB]) : i \in Idx(s)})
+          \cup L("val-ws:space-before-crlf", {SetDir(s, i, [s.dirs[i] EXCEPT !.post = SP]) : i \in Idx(s)})
 Act(a, s) == CASE a = "val-ws" -> ActValWs(s) [] a = "name-case" -> ActCase(s) [] a = "ows" -> ActOws(s) [] a = "edge-ws" -> ActEdge(s) [] a = "eq-ws" -> ActEqWs(s)
                [] a = "empty" -> ActEmpty(s) [] a = "trail" -> ActTrail(s) [] a = "order" -> ActOrder(s) [] a = "quote" -> ActQuote(s)
                [] a = "unknown" -> ActUnknown(s)
